@@ -90,7 +90,8 @@ def step (s : St) (line : String) : St × String :=
       if skipped then (s, "skip " ++ dump w')
       else
         let shadow := rescan s.P s.chain
-        let flags := s!"valid={b01 (validBlockB s.P b shadow)} novote={b01 (noOwnedVoteBlockB s.P b)}"
+        let gshadow := rescan (allOf s.P) s.chain
+        let flags := s!"valid={b01 (validBlockB s.P b shadow)} gvalid={b01 (gvalidBlockB s.P b gshadow)} novote={b01 (noOwnedVoteBlockB s.P b)}"
         ({ s with w := w', chain := b :: s.chain }, "ok " ++ flags ++ " " ++ dump w')
     | none => (s, "bad-op")
   | ["detach", id] =>
